@@ -252,24 +252,30 @@ Proof. exact exhausted_counter_at_limit_resumes. Qed.
 Print Assumptions C19_exhausted_counter_at_limit_resumes.
 
 (* F67 (repaired by 559b800): the Conn built by Resume starts in the finished state whatever
-   versions its options allow ... *)
+   versions its options allow; with 1.3-only options (no DTLS 1.2 suite is left in the
+   configuration) the first Handshake/Read/Write is refused instead - never a new handshake ... *)
 Theorem C19_resumed_conn_starts_finished :
-  forall vmin vmax, handshake_start vmin vmax true = StartFinished.
+  forall vmin vmax, vmin <> v13 -> handshake_start vmin vmax true = StartFinished.
 Proof. exact resumed_conn_starts_finished. Qed.
 Print Assumptions C19_resumed_conn_starts_finished.
+
+Theorem C19_resumed_conn_never_starts_a_handshake :
+  forall vmin vmax, handshake_start vmin vmax true = (if vmin =? v13 then StartRefused else StartFinished).
+Proof. exact resumed_conn_never_starts_a_handshake. Qed.
+Print Assumptions C19_resumed_conn_never_starts_a_handshake.
 
 (* ... regression witnesses: dual-stack and 1.3-only options made it start a new handshake *)
 Theorem C19_resume_ignored_refuted :
   handshake_start_gen false v12 v13 true = StartDualStack /\
   handshake_start_gen false v13 v13 true = StartNew13 /\
-  (forall vmin, handshake_start_gen false vmin v12 true = StartFinished).
+  handshake_start_gen false v12 v12 true = StartFinished.
 Proof. exact resume_ignored_refuted. Qed.
 Print Assumptions C19_resume_ignored_refuted.
 
 Theorem C19_resume_start_as_coded :
   if resume_honoured_for_any_version
-  then forall vmin vmax, handshake_start vmin vmax true = StartFinished
-  else exists vmin vmax, handshake_start vmin vmax true <> StartFinished.
+  then forall vmin vmax, handshake_start vmin vmax true = StartFinished \/ handshake_start vmin vmax true = StartRefused
+  else exists vmin vmax, handshake_start vmin vmax true = StartDualStack \/ handshake_start vmin vmax true = StartNew13.
 Proof. exact resume_start_as_coded. Qed.
 Print Assumptions C19_resume_start_as_coded.
 
@@ -375,5 +381,5 @@ Example C19_example_main_case_shape :
            match import_export C19_example_state with Some s' => s' | None => C19_example_state end,
            C19_example_state,
            [(0, 0); (0, 1); (0, 2); (0, 3); (1, 0); (1, 1); (1, 2)], [(1, 3); (1, 4)], None, None,
-           (v12, v13, true, false)) = true.
+           (v12, v13, 0, false)) = true.
 Proof. vm_compute. reflexivity. Qed.
